@@ -68,16 +68,18 @@ pub struct WOut {
     pub first_err: Option<String>,
     /// name of the API call that failed first
     pub failed_call: Option<&'static str>,
+    /// after an earlier API call had failed the caller still finished / closed the writer, and that call returned Ok
+    pub finish_ok_after_error: bool,
     /// raised by the simulator itself while driving the writer (lost wake-up, step budget)
     pub sim_violation: Option<simcore::Violation>,
 }
 
 impl WOut {
     pub fn ok() -> Self {
-        WOut { api_ok: true, first_err: None, failed_call: None, sim_violation: None }
+        WOut { api_ok: true, first_err: None, failed_call: None, finish_ok_after_error: false, sim_violation: None }
     }
     pub fn fail(call: &'static str, e: impl std::fmt::Display) -> Self {
-        WOut { api_ok: false, first_err: Some(e.to_string()), failed_call: Some(call), sim_violation: None }
+        WOut { api_ok: false, first_err: Some(e.to_string()), failed_call: Some(call), finish_ok_after_error: false, sim_violation: None }
     }
 }
 
